@@ -221,49 +221,53 @@ fn snippet_for(name: &str, n: usize) -> String {
     }
 }
 
-/// Class completion at every parent-class position of a record body of the root file.
+/// Class completion at every parent-class position of a record body of every file of the workspace.
 fn class_failures(case: &WsCase) -> (Vec<(String, String)>, u64) {
-    let text = case.root_text().to_string();
-    let parse = syntax::parse(&text);
-    // offsets inside / at the end of the parent name of class and def statements
-    let mut offsets = Vec::new();
-    for node in parse.syntax_node().descendants() {
-        let Some(rb) = ast::RecordBody::cast(node) else { continue };
-        let Some(pl) = rb.parent_class_list() else { continue };
-        for cr in pl.classes() {
-            if let Some(r) = cr.name().and_then(|n| n.range()) {
-                let (s, e) = (usize::from(r.start()), usize::from(r.end()));
-                for o in s + 1..=e {
-                    offsets.push(o);
-                }
-            }
-        }
-    }
-    if offsets.is_empty() {
-        return (vec![], 0);
-    }
     // unresolvable template-argument types drop a parameter in the indexer; only workspaces
     // where the reference table is unambiguous are judged: every parameter type is a builtin
     let expected: BTreeSet<(String, String)> = reference_classes(case).into_iter().map(|(n, k)| (n.clone(), snippet_for(&n, k))).collect();
     let ws = Ws::new(&case.files, &case.root);
     let a = ws.analysis();
+    // the files of the workspace: the root and what it reaches
+    let in_workspace: BTreeSet<String> = a.diagnostics().keys().map(|f| ws.fs.path_of(*f)).collect();
     let mut out = Vec::new();
     let mut checked = 0;
-    for o in offsets {
-        let items = a.completion(FilePosition::new(ws.root, TextSize::from(o as u32)), None).unwrap_or_default();
-        let got: BTreeSet<(String, String)> = items
-            .iter()
-            .filter(|i| i.kind == CompletionItemKind::Class)
-            .map(|i| (i.label.clone(), i.insert_text_snippet.clone().unwrap_or_default()))
-            .collect();
-        let dup = items.iter().filter(|i| i.kind == CompletionItemKind::Class).count() != got.len();
-        checked += 1;
-        if got != expected || dup {
-            out.push((
-                "class-completions".to_string(),
-                format!("at offset {o}: offered {got:?}{}, classes of the workspace {expected:?}", if dup { " (with duplicates)" } else { "" }),
-            ));
-            break;
+    for (path, text) in &case.files {
+        if !in_workspace.contains(path) {
+            continue;
+        }
+        let Some(fid) = ws.fs.lookup(path) else { continue };
+        let parse = syntax::parse(text);
+        // offsets inside / at the end of the parent name of class and def statements
+        let mut offsets = Vec::new();
+        for node in parse.syntax_node().descendants() {
+            let Some(rb) = ast::RecordBody::cast(node) else { continue };
+            let Some(pl) = rb.parent_class_list() else { continue };
+            for cr in pl.classes() {
+                if let Some(r) = cr.name().and_then(|n| n.range()) {
+                    let (s, e) = (usize::from(r.start()), usize::from(r.end()));
+                    for o in s + 1..=e {
+                        offsets.push(o);
+                    }
+                }
+            }
+        }
+        for o in offsets {
+            let items = a.completion(FilePosition::new(fid, TextSize::from(o as u32)), None).unwrap_or_default();
+            let got: BTreeSet<(String, String)> = items
+                .iter()
+                .filter(|i| i.kind == CompletionItemKind::Class)
+                .map(|i| (i.label.clone(), i.insert_text_snippet.clone().unwrap_or_default()))
+                .collect();
+            let dup = items.iter().filter(|i| i.kind == CompletionItemKind::Class).count() != got.len();
+            checked += 1;
+            if got != expected || dup {
+                out.push((
+                    "class-completions".to_string(),
+                    format!("{path} at offset {o}: offered {got:?}{}, classes of the workspace {expected:?}", if dup { " (with duplicates)" } else { "" }),
+                ));
+                return (out, checked);
+            }
         }
     }
     (out, checked)
@@ -366,7 +370,7 @@ impl Engine for C20 {
         format!(
             "every label the server offers at file level, in a type position, in a value position and after '!' (obtained from the real completion handler; the '!' additions as the multiset difference with/without trigger); \
              lexer probes: every lowercase word of length <= {}, every single-edit neighbour (deletion, substitution, insertion over [a-z0-9]) of every offered or source-listed operator name, and the names in lexer.rs's operator arms; \
-             class completion at every offset of every parent-class name of every class/def of every workspace over the stress menu extended by 16 classes whose parameter defaults have no computable type (!cond, undefined name, class name as a value, bit range of an integer, unresolved field access) (<= {} statements, one- and two-file) and every seed. \
+             class completion at every offset of every parent-class name of every class/def of every file (root and included) of every workspace over the stress menu extended by 16 classes whose parameter defaults have no computable type (!cond, undefined name, class name as a value, bit range of an integer, unresolved field access) (<= {} statements, one- and two-file) and every seed. \
              non-trivial = offered labels, probes the lexer accepts as operators, workspaces with a parent-class position.",
             tier.pick(4, 5),
             tier.pick(2, 3)
